@@ -373,11 +373,12 @@ func runC19(r *report.Report) {
 		bound int
 	}
 	b := 2
+	b10 := 2
 	if r.Tier == "thorough" {
-		b = 3
+		b10 = 3
 	}
 	cfgs := []c{
-		{"tcp-2senders-closer-delay10", c19params{Carrier: "tcp", Senders: 2, Delay: 10, Closer: true}, b},
+		{"tcp-2senders-closer-delay10", c19params{Carrier: "tcp", Senders: 2, Delay: 10, Closer: true}, b10},
 		{"tcp-2senders-closer-delay0", c19params{Carrier: "tcp", Senders: 2, Delay: 0, Closer: true}, b},
 		{"tcp-2senders-faults", c19params{Carrier: "tcp", Senders: 2, Delay: 10, Faults: true, Closer: true}, b - 1},
 		{"tcp-2senders-nocloser", c19params{Carrier: "tcp", Senders: 2, Delay: 10}, b},
